@@ -484,6 +484,11 @@ bufferevent_filtered_inbuf_cb(struct evbuffer *buf,
 	struct bufferevent *bev = downcast(bevf);
 
 	BEV_LOCK(bev);
+	if (BEV_UPCAST(bev)->refcnt <= 0) {
+		BEV_UNLOCK(bev);
+		return;
+	}
+	bufferevent_incref_(bev);
 
 	if (bevf->got_eof)
 		state = BEV_FINISHED;
@@ -502,7 +507,7 @@ bufferevent_filtered_inbuf_cb(struct evbuffer *buf,
 			be_filter_read_nolock_(bevf->underlying, bevf);
 	}
 
-	BEV_UNLOCK(bev);
+	bufferevent_decref_and_unlock_(bev);
 }
 
 /* Called when the underlying socket has read. */
@@ -513,9 +518,13 @@ be_filter_readcb(struct bufferevent *underlying, void *me_)
 	struct bufferevent *bev = downcast(bevf);
 
 	BEV_LOCK(bev);
-
-	be_filter_read_nolock_(underlying, me_);
-
+	/* the user's callbacks may free us: hold a reference while they run */
+	if (BEV_UPCAST(bev)->refcnt > 0) {
+		bufferevent_incref_(bev);
+		be_filter_read_nolock_(underlying, me_);
+		bufferevent_decref_and_unlock_(bev);
+		return;
+	}
 	BEV_UNLOCK(bev);
 }
 
@@ -536,7 +545,10 @@ be_filter_writecb(struct bufferevent *underlying, void *me_)
 
 	// If our refcount is > 0
 	if (bufev_private->refcnt > 0) {
+		bufferevent_incref_(bev);
 		be_filter_process_output(bevf, BEV_NORMAL, &processed_any);
+		bufferevent_decref_and_unlock_(bev);
+		return;
 	}
 
 	BEV_UNLOCK(bev);
@@ -559,7 +571,10 @@ be_filter_eventcb(struct bufferevent *underlying, short what, void *me_)
 	if (bufev_private->refcnt > 0) {
 
 		/* All we can really to is tell our own eventcb. */
+		bufferevent_incref_(bev);
 		bufferevent_run_eventcb_(bev, what, 0);
+		bufferevent_decref_and_unlock_(bev);
+		return;
 	}
 
 	BEV_UNLOCK(bev);
